@@ -23,6 +23,7 @@ static void ctx_seq(unsigned k, uint32_t c, U32V &cps)
 static const unsigned QUICK_CTX[4] = {0, 4, 8, 12};  // alone, [n4,c], [c,n4], [n1,c,n4]
 
 static std::string show_cps(const U32V &cps);
+static void path_routes(Ctx &c, const U32V &cps);
 static void run_all_encodings(Ctx &c, const U32V &cps, const RunOpts &ro)
 {
     U32V units;
@@ -31,6 +32,12 @@ static void run_all_encodings(Ctx &c, const U32V &cps, const RunOpts &ro)
         run_case(c, e, units, ro);
     }
     if (ro.primary_only) return;
+    path_routes(c, cps);
+}
+
+static void path_routes(Ctx &c, const U32V &cps)
+{
+    U32V units;
     // std::filesystem::path routes (well-formed text only, so they live here and not in the shared route table): the path
     // holds the text in the platform's narrow encoding, every way in and out must reproduce the UTF-8 bytes
     encode_cps(cps, ref::E8, units);
@@ -243,6 +250,29 @@ static void build(vf::Plan &plan, const vf::Opts &o)
                    [](uint64_t i) {
                        unsigned tail = (unsigned)vf::take(i, 2), k = (unsigned)vf::take(i, 4);
                        return strf("%llu x U+%04X%s", (unsigned long long)i, FILLCP[k], tail ? strf(" + U+%04X", FILLCP[(k + 1) % 4]).c_str() : "");
+                   });
+    }
+    // path routes on texts made of separators and dots (a path may normalise what it prints, not what it stores)
+    {
+        static const uint32_t PA[6] = {'/', 'a', '.', '\\', ' ', 0xE9};
+        const unsigned PL = big ? 7 : 6;
+        plan.stage(strf("path routes: {/,a,.,\\,space,U+00E9}^<=%u", PL), vf::seq_count(6, PL),
+                   [PL](uint64_t i, Ctx &c) {
+                       std::vector<unsigned> d;
+                       vf::seq_decode(i, 6, PL, d);
+                       U32V cps;
+                       for (unsigned k : d) cps.push_back(PA[k]);
+                       RunOpts ro;
+                       path_routes(c, cps);
+                       (void)ro;
+                       if (cps.size() >= 2) c.nontrivial();
+                   },
+                   [PL](uint64_t i) {
+                       std::vector<unsigned> d;
+                       vf::seq_decode(i, 6, PL, d);
+                       U32V cps;
+                       for (unsigned k : d) cps.push_back(PA[k]);
+                       return show_cps(cps);
                    });
     }
     plan.stage("latin1: all 256^2 byte pairs", 65536,
